@@ -1567,7 +1567,10 @@ def run(facts, rep, tier):
     from . import c04
     sub = _Only(rep, "cache:metadata")
     c04.rule_r3(facts, sub, "C01-R6b")
-
+    rep.rule("C01-R4c", "= C05-R3: both printers decide reference-vs-external through model::is_ref_url, a negated disjunction of case-folded scheme prefixes (a url that is "
+             "taken for a note reference gets the extension / title / path treatment of one).")
+    from . import c05
+    c05.rule_r3(facts, rep, "C01-R4c")
 
 class _Only:
     """Forwards only the instances whose key contains a marker."""
